@@ -66,13 +66,47 @@ def gen_scaling_list(rng, size):
     return deltas
 
 
+# values with a meaning of their own in the standard (Tables 7-3, 7-4: the default lists; Flat_4x4_16 / Flat_8x8_16): coded
+# explicitly they are explicit lists like any other
+DEFAULT_4x4_INTRA = [6, 13, 13, 20, 20, 20, 28, 28, 28, 28, 32, 32, 32, 37, 37, 42]
+DEFAULT_4x4_INTER = [10, 14, 14, 20, 20, 20, 24, 24, 24, 24, 27, 27, 27, 30, 30, 34]
+DEFAULT_8x8_INTRA = [6, 10, 10, 13, 11, 13, 16, 16, 16, 16, 18, 18, 18, 18, 18, 23, 23, 23, 23, 23, 23, 25, 25, 25, 25, 25, 25, 25,
+                     27, 27, 27, 27, 27, 27, 27, 27, 29, 29, 29, 29, 29, 29, 29, 31, 31, 31, 31, 31, 31, 33, 33, 33, 33, 33,
+                     36, 36, 36, 36, 38, 38, 38, 40, 40, 42]
+DEFAULT_8x8_INTER = [9, 13, 13, 15, 13, 15, 17, 17, 17, 17, 19, 19, 19, 19, 19, 21, 21, 21, 21, 21, 21, 22, 22, 22, 22, 22, 22, 22,
+                     24, 24, 24, 24, 24, 24, 24, 24, 25, 25, 25, 25, 25, 25, 25, 27, 27, 27, 27, 27, 27, 28, 28, 28, 28, 28,
+                     30, 30, 30, 30, 32, 32, 32, 33, 33, 35]
+
+
+def explicit_deltas(values):
+    """delta_scale sequence coding exactly these values (7.3.2.1.1.1), never terminating early"""
+    out, last = [], 8
+    for v in values:
+        d = (v - last + 128) % 256 - 128
+        out.append(d)
+        last = v
+    return out
+
+
 def enc_scaling_lists(w, rng, count):
     for i in range(count):
         present = rng.random() < 0.6
         w.b(present)
         if present:
-            for d in gen_scaling_list(rng, 16 if i < 6 else 64):
-                w.se(d)
+            n = 16 if i < 6 else 64
+            r = rng.random()
+            if r < 0.12:
+                # one of the standard's own tables, in the slot it belongs to or in another one, or a flat list
+                tabs = [DEFAULT_4x4_INTRA, DEFAULT_4x4_INTER, [16] * 16] if n == 16 else [DEFAULT_8x8_INTRA, DEFAULT_8x8_INTER, [16] * 64]
+                own = tabs[0 if (i < 3 or (i >= 6 and i % 2 == 0)) else 1]
+                vals = list(own if rng.random() < 0.6 else rng.choice(tabs))
+                if rng.random() < 0.2:
+                    vals[rng.randrange(n)] += 1
+                for d in explicit_deltas(vals):
+                    w.se(d)
+            else:
+                for d in gen_scaling_list(rng, n):
+                    w.se(d)
 
 
 # ------------------------------------------------------------------ SPS
@@ -92,6 +126,13 @@ def enc_hrd(w, h):
     w.u(5, h["icrdl"]).u(5, h["crdl"]).u(5, h["dodl"]).u(5, h["tol"])
 
 
+# (num_units_in_tick, time_scale) pairs in actual use: exact x/1001 bases, their decimal approximations, PAL / film / 90 kHz
+BROADCAST_TIMING = [(1001, 30000), (1001, 60000), (1001, 24000), (1001, 48000), (1001, 120000), (2002, 120000), (1, 50), (1, 60), (1, 48),
+                    (1, 25), (1, 30), (500, 60000), (100, 5994), (125, 5994), (50, 5994), (100, 2997), (1000, 59940), (1000, 23976),
+                    (1000, 47952), (3003, 180000), (3600, 180000), (1800, 90000), (1501, 90000), (1, 120), (2002, 120001), (21, 1007),
+                    (25, 2997), (50, 2997), (900900, 27000000), (1080000, 27000000)]
+
+
 def gen_vui(rng, max_num_ref_frames, shape=None):
     """shape: None (random) or dict forcing nal/vcl hrd presence etc."""
     v = {}
@@ -103,6 +144,8 @@ def gen_vui(rng, max_num_ref_frames, shape=None):
     v["chroma_loc"] = None if rng.random() < 0.6 else (ue_val(rng, 5), ue_val(rng, 5))
     v["timing"] = None if rng.random() < 0.4 else (pick(rng, [0, 1, 1001, 0xffffffff, rng.getrandbits(32)]),
                                                    pick(rng, [0, 1, 50, 60000, 0xffffffff, rng.getrandbits(32)]), rng.random() < 0.5)
+    if v["timing"] is not None and rng.random() < 0.35:
+        v["timing"] = rng.choice(BROADCAST_TIMING) + (rng.random() < 0.7,)
     nal = rng.random() < 0.4
     vcl = rng.random() < 0.4
     if shape is not None:
